@@ -251,3 +251,28 @@ def integer_pixel_grid(c):
                       illum_wavelen=lam * s, **kw)
     c.ensures("kernel-positions-equal", c.eq(th.calls[1]['pos'], th.calls[0]['pos']))
     c.ensures("hologram-equal", c.eq(in_units.values, in_pixels.values))
+
+
+@contract("C04", "spherical_detector_points_scale", [IF + "ImageFormation._transform_to_desired_coordinates", SI + "calc_field"],
+          bounded="two detector points given in spherical coordinates (r, theta, phi) about the origin")
+def spherical_detector_points_scale(c):
+    """detector points given by radius and angles: under a change of length unit (radius, sphere and wavelength scaled together) the
+    kernel sees the same dimensionless positions, and they are k times the positions relative to the particle"""
+    from holopy.scattering.interface import calc_field
+    s = _scale(c)
+    lam = c.real("wavelen", pos=True, sample=(0.4, 0.8))
+    n_med = c.real("medium_index", pos=True, sample=(1.0, 1.6))
+    n, r = c.real("n", pos=True, sample=(1.2, 2.0)), c.real("r", pos=True, sample=(0.2, 1.0))
+    A = (lambda v: np.array(v, dtype=object if c.symbolic else float))
+    rad = [c.real("r0", pos=True, sample=(5, 20)), c.real("r1", pos=True, sample=(5, 20))]
+    theta = np.array([0.3, 1.1])
+    phi = np.array([0.2, 2.5])
+    th = AbstractPointTheory(coordinates='spherical')
+    kw = dict(medium_index=n_med, illum_polarization=(1, 0), theory=th)
+    c.call(calc_field, detector_points(r=A(rad), theta=theta, phi=phi), Sphere(n=n, r=r, center=[0, 0, 0]), illum_wavelen=lam, **kw)
+    c.call(calc_field, detector_points(r=A([v * s for v in rad]), theta=theta, phi=phi), Sphere(n=n, r=r * s, center=[0, 0, 0]),
+           illum_wavelen=lam * s, **kw)
+    a, b = th.calls[0], th.calls[1]
+    c.ensures("positions-are-dimensionless", c.eq(a['pos'], b['pos']))
+    c.ensures("radius-in-units-of-one-over-k", c.and_(*[c.eq(a['pos'][0][i], a['k'] * rad[i]) for i in range(2)]))
+    c.ensures("size-parameter", c.eq(a['k'] * a['scatterer'].r, b['k'] * b['scatterer'].r))
